@@ -608,6 +608,9 @@ func parseExcludeFile(openFile openFileFunc) (excludeIPs scan.IPContainer, err e
 			return
 		}
 	}
+	if err = scanner.Err(); err != nil {
+		return
+	}
 	excludeIPs = ranger
 	return
 }
@@ -633,6 +636,9 @@ func parsePortsFile(openFile openFileFunc) (result []*scan.PortRange, err error)
 			return nil, err
 		}
 		result = append(result, ports)
+	}
+	if err = scanner.Err(); err != nil {
+		return nil, err
 	}
 	return
 }
